@@ -279,7 +279,7 @@ def install_calculate(reg):
                                   ('propagate_viability_from_node', 'nu'): lambda ex, st, args: ex.ghosts['nuV'],
                                   ('propagate_necessity_from_node', 'G'): lambda ex, st, args: ex.args['graph'].t,
                                   ('propagate_necessity_from_node', 'nu'): lambda ex, st, args: ex.ghosts['nuN']},
-                     props=('C08',)))
+                     props=('C08',), solver_budget=45))      # the monotonicity step `down-n` after a base assignment needs MBQI (~30 s)
 
 
 # ---------------------------------------------------------------------------------------------------
